@@ -562,6 +562,62 @@ pub fn entropies(n: usize) -> BoxedStrategy<Vec<Vec<u8>>> {
     vec(vec(any::<u8>(), 0..96), n..=n).boxed()
 }
 
+/// deep, branching type graphs: a chain of `levels` derived definitions, each holding a leaf type of
+/// its own before and after the link to the next one (wrapped in 1-3 built-in layers), plus one
+/// deeply nested built-in expression. Registration order, recursion depth and numbering all matter
+/// here, and nothing else in the grammar goes deeper than a handful of levels.
+pub fn deep_program() -> BoxedStrategy<Program> {
+    (6usize..40, vec(any::<u8>(), 40..=40), any::<bool>(), 4usize..36)
+        .prop_map(|(levels, salts, enums, nest)| {
+            let bx = |t: TE| Box::new(t);
+            let leaf = |i: usize, k: u8| -> TE {
+                match k % 5 {
+                    0 => TE::Array(bx(TE::U(8)), i as u32 + 1),
+                    1 => TE::Tuple(vec![TE::U(16), TE::Array(bx(TE::Bool), i as u32 + 1)]),
+                    2 => TE::Option(bx(TE::Array(bx(TE::I(32)), i as u32 + 1))),
+                    3 => TE::Result(bx(TE::Array(bx(TE::U(64)), i as u32 + 1)), bx(TE::String)),
+                    _ => TE::Map(bx(TE::U(32)), bx(TE::Array(bx(TE::U(128)), i as u32 + 1))),
+                }
+            };
+            let wrap = |t: TE, k: u8| -> TE {
+                match k % 6 {
+                    0 => TE::Option(bx(t)),
+                    1 => TE::Vec(bx(TE::Option(bx(t)))),
+                    2 => TE::Tuple(vec![TE::U(8), TE::Vec(bx(t))]),
+                    3 => TE::Map(bx(TE::U(16)), bx(TE::Tuple(vec![t, TE::Bool]))),
+                    4 => TE::Box(bx(TE::Result(bx(t), bx(TE::Unit)))),
+                    _ => TE::Array(bx(TE::Option(bx(t))), 2),
+                }
+            };
+            let fld = |name: &str, ty: TE| FieldD { name: Some(name.to_string()), ty, attr: FieldAttr::default(), docs: vec![], spaced: false, qualified: false };
+            let mut defs: Vec<Def> = vec![];
+            for i in 0..levels {
+                let k = salts[i % salts.len()];
+                let mut fields = vec![fld("before", leaf(i, k))];
+                if i > 0 {
+                    fields.push(fld("next", wrap(TE::Def(i - 1, vec![]), k / 5)));
+                }
+                fields.push(fld("after", leaf(i + 100, k / 7)));
+                let body = if enums && i % 3 == 1 {
+                    Body::Enum(vec![
+                        VariantD { name: "A".into(), shape: Shape::Named, fields: fields.clone(), index: None, skip: false, docs: vec![], discriminant: None, index_style: 0 },
+                        VariantD { name: "B".into(), shape: Shape::Unit, fields: vec![], index: None, skip: false, docs: vec![], discriminant: None, index_style: 0 },
+                    ])
+                } else {
+                    Body::Struct(Shape::Named, fields)
+                };
+                defs.push(Def { name: format!("Deep{i}"), modules: vec![format!("deep{i}")], n_params: 0, lifetime: false, const_params: vec![], body, attr: ItemAttr::default(), docs: vec![], encode: false, via_macro: false, repr: None });
+            }
+            // one built-in expression nested `nest` levels deep, branching at every level
+            let mut t = TE::U(8);
+            for j in 0..nest {
+                t = TE::Tuple(vec![leaf(j + 200, salts[(j + 7) % salts.len()]), wrap(t, salts[(j + 3) % salts.len()] / 3)]);
+            }
+            Program { roots: vec![TE::Def(levels - 1, vec![]), t], defs }
+        })
+        .boxed()
+}
+
 /// fixed family programs: every member of each macro-generated family of built-in impls in one
 /// registry (C04); `k` selects the family
 pub const N_FAMILIES: u8 = 7;
